@@ -41,4 +41,6 @@ def run(rep, fb, tier):
     _l2.rule_minmax_direction(rep, fb)
     from ..rules import pyrules as _pr3
     _pr3.rule_py_highlevel_returns(rep)
+    from ..rules import pyrules as _pr4
+    _pr4.rule_py_defassign(rep)
     rep.units = fb.units
